@@ -120,10 +120,42 @@ def collapse (a : Char) : List Char → List Char
   | x :: y :: cs => if x == a && y == a then a :: collapse a cs else x :: collapse a (y :: cs)
   | cs => cs
 
-/-- the text of one part as `Parser::f_string` computes it on this tree:
-    `unescape_str(s)?.replace("{{", "{").replace("}}", "}")` -/
-def partText (raw : List Char) : Option (List Char) :=
+/-- the text of one part as `Parser::f_string` computed it BEFORE the fix
+    `fstring-escaped-brace-collapse`:
+    `unescape_str(s)?.replace("{{", "{").replace("}}", "}")` — the braces were
+    collapsed *after* unescaping, so two escaped braces collapsed as well. -/
+def partTextOld (raw : List Char) : Option (List Char) :=
   (unescape raw).map fun s => collapse '}' (collapse '{' s)
+
+/-- `unescape_f_string_part` (src/parser/expr.rs, after the fix): one pass over
+    the *source* text; `\`+char is skipped (for `\u{` up to the closing `}`:
+    `inU`), `{{` / `}}` end the pending piece (`acc`, reversed), which is
+    unescaped on its own, and contribute one literal brace. -/
+def partTextGo : Bool → List Char → List Char → Option (List Char)
+  | _, [], acc => unescape acc.reverse
+  | true, c :: cs, acc => partTextGo (c != '}') cs (c :: acc)
+  | false, [c], acc => unescape (c :: acc).reverse
+  | false, [c, d], acc =>
+    if c == '\\' then partTextGo false [] (d :: c :: acc)
+    else if (c == '{' || c == '}') && d == c then
+      match unescape acc.reverse, partTextGo false [] [] with
+      | some a, some b => some (a ++ c :: b)
+      | _, _ => none
+    else partTextGo false [d] (c :: acc)
+  | false, c :: d :: e :: cs, acc =>
+    if c == '\\' then
+      if d == 'u' && e == '{' then partTextGo true cs (e :: d :: c :: acc)
+      else partTextGo false (e :: cs) (d :: c :: acc)
+    else if (c == '{' || c == '}') && d == c then
+      match unescape acc.reverse, partTextGo false (e :: cs) [] with
+      | some a, some b => some (a ++ c :: b)
+      | _, _ => none
+    else partTextGo false (d :: e :: cs) (c :: acc)
+termination_by _ cs _ => cs.length
+decreasing_by all_goals simp_wf <;> omega
+
+/-- the text of one part as `Parser::f_string` computes it -/
+def partText (raw : List Char) : Option (List Char) := partTextGo false raw []
 
 /-! ## what the manual says a text part means
 
